@@ -57,7 +57,9 @@ def run_case(ctx, case):
             # than misbehaving"
             wrong = [kw for (kw, kind, form), p in zip(case["used"], ex["call"].used)
                      if not (sa.BITS[kind] & p[0]["kind"])]
-            if wrong:
+            if run["panic"].get("msg", "").startswith("capacity overflow"):
+                ctx.skip("resource_exhaustion:capacity_overflow")
+            elif wrong:
                 ctx.violation("c03:wrong_type_panic:%s" % fn,
                               dict(detail, panic=run["panic"], wrong_kind_params=wrong), case=one)
             else:
